@@ -2,7 +2,7 @@
 From Coq Require Import NArith List.
 Import ListNotations.
 From DV Require Import Base.Outcome C18.Gen C18.Model C18.Proofs C18.ProofsEnc C18.ProofsSpec
-  C18.ProofsDec64 C18.ProofsDec32 C18.ProofsApi C18.ProofsApi2 C18.ProofsConv.
+  C18.ProofsDec64 C18.ProofsDec32 C18.ProofsApi C18.ProofsApi2 C18.ProofsConv C18.ProofsPostFix.
 Local Open Scope N_scope.
 
 Theorem C18_encode_tables_are_rfc4648 :
@@ -62,6 +62,17 @@ Theorem C18_b16_accepts_iff_wellformed : forall s bs,
 Proof. exact b16_accepts_iff_wellformed. Qed.
 Print Assumptions C18_b16_accepts_iff_wellformed.
 
+Theorem C18_accepts_only_alphabet : forall s bs,
+  (b64_decode s = Ok bs ->
+     Nat.modulo (length s) 4 = 0%nat /\ Forall (fun c => c = 61 \/ val64 c <> None) s) /\
+  (b32_decode s = Ok bs -> Forall (fun c => val32 c <> None) s) /\
+  (b16_decode s = Ok bs -> Forall (fun c => val16 c <> None) s /\ Nat.modulo (length s) 2 = 0%nat).
+Proof.
+  exact (fun s bs => conj (b64_accepts_only_alphabet s bs)
+                          (conj (b32_accepts_only_alphabet s bs) (b16_accepts_only_alphabet s bs))).
+Qed.
+Print Assumptions C18_accepts_only_alphabet.
+
 Theorem C18_b64_decode_total : forall s, no_panic (b64_decode s) /\
   (spec_dec64 s = None -> exists e, b64_decode s = Err e).
 Proof. exact b64_decode_total. Qed.
@@ -77,7 +88,8 @@ Theorem C18_b16_decode_total : forall s, no_panic (b16_decode s) /\
 Proof. exact b16_decode_total. Qed.
 Print Assumptions C18_b16_decode_total.
 
-Theorem C18_b64_chunk_independent : forall a b d, b64_run d (a ++ b) = seq_runs b64_run d a b.
+Theorem C18_b64_chunk_independent : forall sticky a b d,
+  b64_run_with sticky d (a ++ b) = seq_runs (b64_run_with sticky) d a b.
 Proof. exact b64_chunk_independent. Qed.
 Print Assumptions C18_b64_chunk_independent.
 
@@ -109,29 +121,61 @@ Proof.
 Qed.
 Print Assumptions C18_converter_agrees_with_decoder.
 
+Theorem C18_b64_decode_unchanged_by_fix : forall s, b64_decode s = b64_decode_from_with false b64_new s.
+Proof. exact b64_decode_is_cur. Qed.
+Print Assumptions C18_b64_decode_unchanged_by_fix.
+
 Theorem C18_b64_api_total_refuted :
-  exists s, snd (b64_push_all s) = Panic 2 /\
-            fst (b64_push_all s) = [None; None; None; Some E_TRAILING].
+  exists s, snd (b64_push_all_cur s) = Panic 2 /\
+            fst (b64_push_all_cur s) = [None; None; None; Some E_TRAILING].
 Proof. exact b64_api_total_refuted. Qed.
 Print Assumptions C18_b64_api_total_refuted.
 
 Theorem C18_b64_api_total_restricted : forall s,
-  ~ In (Some E_TRAILING) (fst (b64_push_all s)) -> no_panic (snd (b64_push_all s)).
+  ~ In (Some E_TRAILING) (fst (b64_push_all_cur s)) -> no_panic (snd (b64_push_all_cur s)).
 Proof. exact b64_api_total_restricted. Qed.
 Print Assumptions C18_b64_api_total_restricted.
 
 Theorem C18_b64_errors_sticky_refuted :
-  exists s, fst (b64_push_all s) = [Some (E_illegal 33); None; None; None; None] /\
-            snd (b64_push_all s) = Ok [102; 111; 111].
+  exists s, fst (b64_push_all_cur s) = [Some (E_illegal 33); None; None; None; None] /\
+            snd (b64_push_all_cur s) = Ok [102; 111; 111].
 Proof. exact b64_errors_sticky_refuted. Qed.
 Print Assumptions C18_b64_errors_sticky_refuted.
 
 Theorem C18_b64_errors_sticky_restricted : forall s,
-  all_trailing (fst (b64_push_all s)) ->
-  (exists e, In (Some e) (fst (b64_push_all s))) ->
-  forall l, snd (b64_push_all s) <> Ok l.
+  all_trailing (fst (b64_push_all_cur s)) ->
+  (exists e, In (Some e) (fst (b64_push_all_cur s))) ->
+  forall l, snd (b64_push_all_cur s) <> Ok l.
 Proof. exact b64_errors_sticky_restricted. Qed.
 Print Assumptions C18_b64_errors_sticky_restricted.
+
+Theorem C18_b64_fix_api_total : forall s, no_panic (snd (b64_push_all_fix s)).
+Proof. exact b64_fix_api_total. Qed.
+Print Assumptions C18_b64_fix_api_total.
+
+Theorem C18_b64_fix_errors_sticky : forall s,
+  (exists e, In (Some e) (fst (b64_push_all_fix s))) -> exists e, snd (b64_push_all_fix s) = Err e.
+Proof. exact b64_fix_errors_sticky. Qed.
+Print Assumptions C18_b64_fix_errors_sticky.
+
+Theorem C18_b64_api_total_as_coded :
+  if b64_push_sticky then forall s, no_panic (snd (b64_push_all s))
+  else (exists s, snd (b64_push_all s) = Panic 2 /\
+                  fst (b64_push_all s) = [None; None; None; Some E_TRAILING]) /\
+       (forall s, ~ In (Some E_TRAILING) (fst (b64_push_all s)) -> no_panic (snd (b64_push_all s))).
+Proof. exact (b64_api_total_sel b64_push_sticky). Qed.
+Print Assumptions C18_b64_api_total_as_coded.
+
+Theorem C18_b64_errors_sticky_as_coded :
+  if b64_push_sticky then forall s, (exists e, In (Some e) (fst (b64_push_all s))) ->
+                                    exists e, snd (b64_push_all s) = Err e
+  else (exists s, fst (b64_push_all s) = [Some (E_illegal 33); None; None; None; None] /\
+                  snd (b64_push_all s) = Ok [102; 111; 111]) /\
+       (forall s, all_trailing (fst (b64_push_all s)) ->
+                  (exists e, In (Some e) (fst (b64_push_all s))) ->
+                  forall l, snd (b64_push_all s) <> Ok l).
+Proof. exact (b64_errors_sticky_sel b64_push_sticky). Qed.
+Print Assumptions C18_b64_errors_sticky_as_coded.
 
 Theorem C18_b32_api_total : forall s, no_panic (snd (b32_push_all s)).
 Proof. exact b32_api_total. Qed.
